@@ -1,6 +1,18 @@
 """Property -> packs, bounded stand-ins, native replay harness, notes (read by pyvc.check)."""
 
 REGISTRY = {
+    "C19": dict(
+        packs=["c19"], level="proof",
+        replay=dict(script="replay/c19.py", args=["small"], timeout=900, python="/verif/.venv_np/bin/python"),
+        bounded=[dict(name="numpy-round-trip-grid", script="replay/c19.py", args=["{tier}"], timeout=1500, python="/verif/.venv_np/bin/python",
+                      bound="12 dtypes (both endiannesses, structured, object, datetime, str/bytes) x 7 shapes (0-d, empty, n-d) x C/Fortran/non-contiguous layouts, alone and nested, x 3 (quick) or 6 "
+                            "(thorough) compressors; 4 mmap modes with alignment and file-unchanged checks (numpy from the offline wheelhouse in an overlay venv built by setup.sh)")],
+        trusted=["numpy: nditer yields every element once in the requested order; frombuffer(tobytes) is the identity; make_memmap maps nbytes at offset; multiply.reduce(shape) is the element count",
+                 "file handle position model (tell/read/write/seek)"],
+        assumptions=["itemsize in {1, 2, 4, 8, 16} for the chunked read loop (keeps the arithmetic linear)", "_read_bytes consumes exactly n bytes (C14)",
+                     "automatic memmapping of large arrays passed to workers (loky reducers) is not under contract: partial decision, framing only"],
+        undecided_clauses=["dtype / endianness semantics, object arrays, subclasses and worker-side memmapping end to end are numpy's / loky's; only covered by the bounded native grid"],
+    ),
     "C16": dict(
         packs=["par1", "par2", "par3", "par4"], level="proof",
         replay=dict(script="replay/par.py", args=["C16", "{seed}", "small"], timeout=1500),
@@ -212,6 +224,13 @@ NOT_APPLICABLE = {
 }
 
 MANIFEST_TEXT = {
+    "C19": dict(
+        text="Payload framing arithmetic proved for all positions and sizes: write_array stores pad = 16 - ((pos + 1) mod 16) in one byte (1 <= pad <= 16) followed by pad filler bytes so "
+             "that the data starts 16-byte aligned, then exactly nbytes of data (loop invariant over the chunks); read_array consumes exactly 1 + pad + count*itemsize bytes (chunk loop invariant), "
+             "transposes back exactly for Fortran order; read_mmap maps at exactly that offset, forwards the order, downgrades 'w+' and leaves the handle after the payload; a lemma shows writer and "
+             "reader offsets coincide and are aligned; _create_array_wrapper: 'F' iff purely Fortran-contiguous, memmap allowed iff raw file and no object dtype; read dispatch.",
+        note="Partial decision (framing only): numpy is assumed and exercised by a bounded native grid in an overlay venv. Known finding K7: default load converts non-native endianness.",
+    ),
     "C16": dict(text='_retrieve: when the head job is finished its results are yielded with no blocking call on that path and without looking at later jobs; results in item order; _register_outcome enqueues an unordered tracker exactly once on the pending->final transition under the lock; GeneratorExit at any yield sets the flags, aborts before tearing down and re-establishes the quiescent state; _reset_run_tracking raises RuntimeError iff already running, tested and set under the lock before any counter is touched; stale callbacks are ignored.', note='Wall-clock promptness and GC timing are not decided.'),
     "C09": dict(text="dispatch_one_batch pulls from the input only with the lock held, only when the look-ahead queue is empty, at most batch_size*n_jobs items per call, and nothing once it has seen the abort flag; the lock invariant bounds the look-ahead by batch_size*n_jobs; a completion callback dispatches at most one further batch; pre_dispatch='all' clears the lazy iterator; eval_ applies only whitelisted operators to constants (structural recursion with its own contract as induction hypothesis).", note="The clause 'no further items after a failure' is undecided across threads (flag read outside the lock)."),
     "C04": dict(text="Quiescent state (not running, no jobs) proved at every exit of _get_outputs and _get_sequential_output (normal, task error, BaseException, GeneratorExit, foreign-thread close); __call__ starts every call with a fresh call id and an empty look-ahead queue under the lock; the task's own exception object is what _return_or_raise / _raise_error_fast raise; a failing input iterator is registered as a failed job and never swallowed; timeout arithmetic of get_status; _abort calls abort_everything at most once with ensure_ready = managed.", note='One fix commit (stale look-ahead batches after an aborted call). Liveness not decided.'),
